@@ -378,6 +378,17 @@ func (t *Teamserver) ListenerServiceExc2Add(Name, ExEndpoint string, client *ser
 	return nil
 }
 
+// ListenerServiceExc2Remove
+// removes the external c2 listeners (and their endpoints) that the given service connection has started.
+func (t *Teamserver) ListenerServiceExc2Remove(client *service.ClientService) {
+	for i := len(t.Listeners) - 1; i >= 0; i-- {
+		if ext, ok := t.Listeners[i].Config.(*handlers.External); ok && ext.Data != nil && ext.Data["client"] == client {
+			t.EndpointRemove(ext.Config.Endpoint)
+			t.Listeners = append(t.Listeners[:i], t.Listeners[i+1:]...)
+		}
+	}
+}
+
 // ListenerStartNotify
 // Notifies the clients of a new listener that is available to use.
 func (t *Teamserver) ListenerStartNotify(Listener map[string]any) {
